@@ -31,6 +31,7 @@ type FakeDrv struct {
 	FailKind string // error | eof | warning | (for Discard: error)
 	FailMeth string // only fail if the method matches ("" = any)
 	n        int
+	plan     map[int]string
 	// GetConfigDoc is returned by GetConfig
 	GetConfigDoc string
 }
@@ -42,6 +43,7 @@ func (f *FakeDrv) Arm(at int, meth, kind string) {
 	f.mu.Lock()
 	defer f.mu.Unlock()
 	f.n, f.FailAt, f.FailMeth, f.FailKind = 0, at, meth, kind
+	f.plan = nil
 }
 
 func (f *FakeDrv) Mark() int {
@@ -62,8 +64,19 @@ func (f *FakeDrv) PendingDocs() []string {
 	return append([]string{}, f.Pending...)
 }
 
+// ArmPlan sets a multi-fault plan: call number (1-based since now) -> kind.
+func (f *FakeDrv) ArmPlan(plan map[int]string) {
+	f.mu.Lock()
+	defer f.mu.Unlock()
+	f.n, f.FailAt, f.FailMeth, f.FailKind = 0, 0, "", ""
+	f.plan = plan
+}
+
 func (f *FakeDrv) fault(meth string) string {
 	f.n++
+	if f.plan != nil {
+		return f.plan[f.n]
+	}
 	if f.FailKind == "double" {
 		if meth == "EditConfig" || meth == "Discard" {
 			return "error"
@@ -207,4 +220,5 @@ func (f *FakeDrv) ArmDouble() {
 	f.mu.Lock()
 	defer f.mu.Unlock()
 	f.n, f.FailAt, f.FailMeth, f.FailKind = 0, -1, "", "double"
+	f.plan = nil
 }
